@@ -15,6 +15,7 @@ import (
 	disttypes "github.com/chain4energy/c4e-chain/x/cfedistributor/types"
 	minttypes "github.com/chain4energy/c4e-chain/x/cfeminter/types"
 	vesttypes "github.com/chain4energy/c4e-chain/x/cfevesting/types"
+	codectypes "github.com/cosmos/cosmos-sdk/codec/types"
 	sdk "github.com/cosmos/cosmos-sdk/types"
 	authtypes "github.com/cosmos/cosmos-sdk/x/auth/types"
 )
@@ -62,7 +63,8 @@ func runC13(c *fw.Case) {
 	}
 	rich := sdk.NewCoins(bigCoins("uc4e", 15))
 	n, err := chain.NewNode(chain.GenesisSpec{Time: gen.Epoch, Minter: minterGenesis(mc.Params, gen.Epoch), Distributor: &disttypes.GenesisState{Params: disttypes.Params{SubDistributors: cloneSubs(sds)}}, Vesting: vg,
-		Accounts: []chain.GenAccount{{Account: authtypes.NewBaseAccount(attacker.Addr, nil, 0, 0), Coins: rich}, {Account: authtypes.NewBaseAccount(other.Addr, nil, 0, 0), Coins: rich}}})
+		Accounts: []chain.GenAccount{{Account: authtypes.NewBaseAccount(attacker.Addr, nil, 0, 0), Coins: rich}, {Account: authtypes.NewBaseAccount(other.Addr, nil, 0, 0), Coins: rich},
+			{Account: authtypes.NewBaseAccount(owner.Addr, nil, 0, 0), Coins: rich}}})
 	if err != nil {
 		if p := asPanic(err); p != nil {
 			c.ViolateD("C10/initchain-panic", p.Stack, "InitChain panicked: %s", short(p.Value, 200))
@@ -83,6 +85,7 @@ func runC13(c *fw.Case) {
 	}
 	ti++
 	accepted, rejected, nonGov := 0, 0, 0
+	drained := false
 	var labels []string
 	for i := 0; i < nMsgs; i++ {
 		if c.R.Intn(3) == 0 && ti < len(times) {
@@ -95,6 +98,14 @@ func runC13(c *fw.Case) {
 			if _, err := n.BeginBlock(now); err != nil {
 				c13Block(c, err)
 				break
+			}
+		}
+		// once the lock has ended the owner may drain the pool: the pool record stays, the denom
+		// must stay as well
+		if withPools && !drained && now.After(gen.Epoch.Add(time.Hour)) && c.R.Intn(3) == 0 {
+			if res, err := n.Deliver(owner, &vesttypes.MsgWithdrawAllAvailable{Owner: owner.Bech()}); err == nil && res.Code == 0 {
+				drained = true
+				c.Count("pools_drained_before_denom_updates", 1)
 			}
 		}
 		authKind := c.R.Intn(10)
@@ -297,7 +308,7 @@ func c13Message(c *fw.Case, n *chain.Node, dk *distEnv, mc gen.MinterConfig, aut
 		var minters []*minttypes.Minter
 		start := cur.StartTime
 		label := ""
-		switch r.Intn(6) {
+		switch r.Intn(7) {
 		case 0: // brand-new valid configuration (may or may not contain the current period)
 			nc := gen.Minters(r, "uc4e", 30)
 			minters, start = nc.Params.Minters, nc.Params.StartTime
@@ -343,6 +354,34 @@ func c13Message(c *fw.Case, n *chain.Node, dk *distEnv, mc gen.MinterConfig, aut
 			last.EndTime = nil
 			minters = append(minters, &last)
 			label = "period-appended"
+		case 5: // a valid list in which one exponential / linear period gets an invalid field
+			for _, m := range cur.Minters {
+				cp := *m
+				minters = append(minters, &cp)
+			}
+			nm := gen.Minters(r, "uc4e", 20)
+			donor := nm.Sorted[len(nm.Sorted)-1]
+			if es, ok := donor.Config.GetCachedValue().(*minttypes.ExponentialStepMinting); ok && len(minters) > 0 {
+				bad := *es
+				switch r.Intn(4) {
+				case 0:
+					bad.StepDuration = 0
+				case 1:
+					bad.StepDuration = -time.Hour
+				case 2:
+					bad.AmountMultiplier = sdk.NewDec(-1)
+				default:
+					bad.Amount = sdk.ZeroInt()
+				}
+				a, _ := codectypes.NewAnyWithValue(&bad)
+				last := *minters[len(minters)-1]
+				last.Config = a
+				minters[len(minters)-1] = &last
+				label = "invalid-exponential-field"
+			} else {
+				minters = nil
+				label = "structurally-invalid"
+			}
 		default: // structurally invalid
 			minters = []*minttypes.Minter{nil}
 			if r.Intn(2) == 0 {
